@@ -7,7 +7,7 @@ cd /repo || exit 2
 if ! git diff --quiet; then echo "/repo is dirty"; exit 2; fi
 git apply "$patch" || { echo "patch does not apply"; exit 2; }
 for c in "$@"; do
-  out=$(cd /verif && ./check "$c" 2>&1 | grep -E "VIOLATION|KNOWN-FINDING|TOOL-FAILURE" | head -3)
+  out=$(cd /verif && ./check "$c" 2>&1 | grep -E "^VIOLATION|TOOL-FAILURE" | head -3)
   echo "[$c] rc=$? ${out:-<no violation reported>}"
 done
 git -C /repo checkout -- .
